@@ -73,7 +73,13 @@ def check(scn, H, view=None):
     for ev in H['build']:
         if ev['ev'] == 'decl' and ev['exc'] is None:
             try:
-                model_drives.apply(scn['decls'][ev['k']])
+                d_ = scn['decls'][ev['k']]
+                model_drives.apply(d_)
+                if d_.get('f_at') is not None and d_['op'] == 'worm':
+                    wi_ = d_['m'] if esi[d_['m']]['kind'] == 'WormGear' \
+                        else d_['s']
+                    model_drives.self_locking[wi_] = \
+                        int(d_['f_at'].get('ulps', 0)) > 0
             except Exception:      # noqa
                 pass
     model = model_drives
